@@ -71,15 +71,11 @@ theorem operatorAmp_apply {α : Type} (dA dB : Nat) (ρ : Nat → Nat → α) (h
   set y : Nat → Nat := fnOfList [i / dA, i % dA, j / dB, j % dB] with hy
   set dims : Nat → Nat := fnOfList [dA, dB, dA, dB] with hdims
   have hp : Toq.C01.IsPermN 4 (swapPerm 1 2) := Toq.C01.swapPerm_isPerm 4 1 2 (by decide) (by decide)
-  have hd : ∀ k, k < 4 → 0 < dims k := by
-    intro k hk
-    have : k = 0 ∨ k = 1 ∨ k = 2 ∨ k = 3 := by omega
-    rcases this with rfl | rfl | rfl | rfl <;> simp [hdims, fnOfList, hA, hB]
   have hyb : ∀ k, k < 4 → y k < dims (swapPerm 1 2 k) := by
     intro k hk
     have : k = 0 ∨ k = 1 ∨ k = 2 ∨ k = 3 := by omega
     rcases this with rfl | rfl | rfl | rfl <;> simp [hy, hdims, fnOfList, swapPerm, ha, ha', hb, hb']
-  have key := Toq.C01.permuteVec_relabel (opVec (dA * dB) ρ) 4 (swapPerm 1 2) dims y hp hd hyb
+  have key := Toq.C01.permuteVec_relabel (opVec (dA * dB) ρ) 4 (swapPerm 1 2) dims y hp hyb
   have hL : enc (fun m => dims (swapPerm 1 2 m)) y 4 = i * (dB * dB) + j := by
     simp only [enc, hy, hdims, fnOfList, swapPerm, List.getD_cons_zero, List.getD_cons_succ]
     simp
